@@ -1271,3 +1271,6 @@ v("c25-key-zip-names-hashes", "C25", "eval_cache.py",
 v("c27-polars-over-only-for-method-terms", "C27", PM,
   "            if op.windowed_situation and (\n                not (\n                    fld_k_container.is_literal\n",
   "            if op.windowed_situation and (len(op.order_by) > 0) and (\n                not (\n                    fld_k_container.is_literal\n")
+v("c16-passthrough-guard-widened-by-or", "C16", "sql_model.py",
+  "        for ci in using_left:\n            if ci not in common:\n",
+  "        for ci in using_left:\n            if (ci not in common) or (join_node.jointype == \"LEFT\"):\n")
